@@ -36,14 +36,16 @@ Reject == /\ Consume /\ Ev.ev \notin {"Begin", "End", "Stop"} /\ ~bad /\ Verdict
           /\ UNCHANGED <<m, cur, nq, nskip>>
 Skip == Consume /\ Ev.ev \notin {"Begin", "End", "Stop"} /\ bad /\ UNCHANGED <<m, cur, bad, nq, nrej, nskip>>
 \* End of a statement: a judged walk must have been complete (otherwise the recorder is wrong)
-EndOk == /\ Consume /\ Ev.ev = "End" /\ (bad \/ (Complete(m) /\ FrameOk(m))) /\ UNCHANGED <<m, cur, bad, nq, nrej, nskip>>
+EndOk == /\ Consume /\ Ev.ev = "End" /\ (bad \/ (Complete(m) /\ FrameOk(m) /\ TakesOk(m))) /\ UNCHANGED <<m, cur, bad, nq, nrej, nskip>>
 EndFrame == /\ Consume /\ Ev.ev = "End" /\ ~bad /\ Complete(m) /\ ~FrameOk(m)
             /\ PrintT(<<"REJECT", cur, m.dialect, "frame", ToString(Top(m.results).cols), l>>) /\ nrej' = nrej + 1 /\ UNCHANGED <<m, cur, bad, nq, nskip>>
 EndBad == /\ Consume /\ Ev.ev = "End" /\ ~bad /\ ~Complete(m)
           /\ PrintT(<<"REJECT", cur, m.dialect, "walk", "End", l>>) /\ nrej' = nrej + 1 /\ UNCHANGED <<m, cur, bad, nq, nskip>>
 Stop == Consume /\ Ev.ev = "Stop" /\ PrintT(<<"COUNTS", nq, nrej, nskip>>) /\ UNCHANGED <<m, cur, bad, nq, nrej, nskip>>
 
-TNext == BeginOk \/ BeginSkip \/ BeginReject \/ Walk \/ Reject \/ Skip \/ EndOk \/ EndBad \/ EndFrame \/ Stop
+EndTakes == /\ Consume /\ Ev.ev = "End" /\ ~bad /\ Complete(m) /\ FrameOk(m) /\ ~TakesOk(m)
+            /\ PrintT(<<"REJECT", cur, m.dialect, "takes", ToString(m.takes), l>>) /\ nrej' = nrej + 1 /\ UNCHANGED <<m, cur, bad, nq, nskip>>
+TNext == EndTakes \/ BeginOk \/ BeginSkip \/ BeginReject \/ Walk \/ Reject \/ Skip \/ EndOk \/ EndBad \/ EndFrame \/ Stop
 TraceSpec == TInit /\ [][TNext]_vars
 TraceAccepted ==
   LET d == TLCGet("stats").diameter IN
